@@ -209,6 +209,9 @@ pub trait MArch {
     fn q_find(w: &mut Self::World, k: Key<Self::Arch>) -> Option<((u32, u32), u8)>;
     /// Same through `ecs_find_borrow!`.
     fn q_find_borrow(w: &Self::World, k: Key<Self::Arch>) -> Option<((u32, u32), u8)>;
+    /// `(raw handle, val)` of an item of `Archetype::iter` / `iter_mut`.
+    fn iter_item_raw(item: &<Self::Arch as Archetype>::IterItem<'_>) -> ((u32, u32), u8);
+    fn iter_mut_item_raw(item: &<Self::Arch as Archetype>::IterItemMut<'_>) -> ((u32, u32), u8);
 }
 
 /// The four key kinds of the API.
@@ -223,8 +226,16 @@ pub enum Key<A: Archetype> {
 /// Writes model `m` into a fresh real storage of capacity `N` through the hooks.
 pub fn load<M: MArch, const N: usize>(m: &Model<N>) -> M::World {
     let mut world = M::new_world(N);
+    load_into::<M, N>(&mut world, m);
+    world
+}
+
+/// Writes model `m` into archetype `M` of an existing world; that archetype must be fresh
+/// (nothing created in it yet) and have capacity exactly `N`.
+pub fn load_into<M: MArch, const N: usize>(world: &mut M::World, m: &Model<N>) {
     {
-        let a = M::arch_mut(&mut world);
+        let a = M::arch_mut(world);
+        assert!(a.capacity() == N && a.len() == 0, "HARNESS-BOUND: load_into needs a fresh archetype of capacity N");
         let mut i = 0;
         while i < N {
             M::set_slot(a, i, m.slot_idx[i], m.slot_ver[i]);
@@ -239,7 +250,6 @@ pub fn load<M: MArch, const N: usize>(m: &Model<N>) -> M::World {
         }
         M::set_raw(a, m.version, m.len, m.free_head);
     }
-    world
 }
 
 /// Reads a real storage whose capacity is exactly `N` back into a model.
@@ -295,7 +305,7 @@ macro_rules! model_arch {
         mk = |$v:ident, $x:ident| $mk:expr,
         un = |$c:ident| $un:expr,
         get = |$a:ident, $i:ident| $get:expr,
-        first = $first:ident, |$f:ident| $fval:expr
+        first = $first:ident, $fi:tt, |$f:ident| $fval:expr
     ) => {
         pub struct $marker;
         impl $crate::model::MArch for $marker {
@@ -343,6 +353,14 @@ macro_rules! model_arch {
                 ::std::mem::forget($c);
                 r
             }
+            fn iter_item_raw(item: &<$arch as gecs::traits::Archetype>::IterItem<'_>) -> ((u32, u32), u8) {
+                let $f = item.$fi;
+                (item.0.into_any().raw(), $fval)
+            }
+            fn iter_mut_item_raw(item: &<$arch as gecs::traits::Archetype>::IterItemMut<'_>) -> ((u32, u32), u8) {
+                let $f = &*item.$fi;
+                (item.0.into_any().raw(), $fval)
+            }
             fn q_find(w: &mut $world, k: $crate::model::Key<$arch>) -> Option<((u32, u32), u8)> {
                 use $crate::model::Key;
                 match k {
@@ -359,6 +377,160 @@ macro_rules! model_arch {
                     Key::Any(h) => ecs_find_borrow!(w, h, |e: &Entity<$arch>, $f: &$first| (e.into_any().raw(), $fval)),
                     Key::Direct(h) => ecs_find_borrow!(w, h, |e: &Entity<$arch>, $f: &$first| (e.into_any().raw(), $fval)),
                     Key::DirectAny(h) => ecs_find_borrow!(w, h, |e: &Entity<$arch>, $f: &$first| (e.into_any().raw(), $fval)),
+                }
+            }
+        }
+    };
+}
+
+/// Every read path and every write path of the API for one entity of archetype `Self`
+/// (all columns at once). Implemented by `paths_impl!`.
+pub trait Paths: MArch {
+    const READ_PATHS: u8 = 12;
+    const WRITE_PATHS: u8 = 10;
+    /// Reads all columns of entity `h` through read path `path`, decoded to `(val, aux, ok)`.
+    fn read_via(w: &mut Self::World, h: Entity<Self::Arch>, path: u8) -> Option<(u8, u32, bool)>;
+    /// Writes the columns derived from `(v, x)` to entity `h` through write path `path`.
+    fn write_via(w: &mut Self::World, h: Entity<Self::Arch>, path: u8, v: u8, x: u32) -> bool;
+}
+
+pub const READ_PATH_NAMES: [&str; 12] = [
+    "ecs_find!", "ecs_find_borrow!", "ecs_iter!", "ecs_iter_borrow!", "view fields", "View::component",
+    "Borrow::component", "resolve + get_slice", "get_all_slices_mut", "Archetype::iter", "Archetype::iter_mut",
+    "resolve + borrow_slice",
+];
+pub const WRITE_PATH_NAMES: [&str; 10] = [
+    "ecs_find! &mut", "ecs_find_borrow! &mut", "ecs_iter! &mut", "ecs_iter_borrow! &mut", "view fields",
+    "View::component_mut", "Borrow::component_mut", "get_slice_mut", "get_all_slices_mut", "Archetype::iter_mut",
+];
+
+/// `paths_impl!(Marker, Arch, ArchComponents, |v, x| [(field, Type, value expr), ...]);`
+/// `field` is the snake-case field name the macros generate for `Type`.
+#[macro_export]
+macro_rules! paths_impl {
+    ($marker:ident, $arch:ident, $comps:ident, |$v:ident, $x:ident| [ $( ($n:ident, $t:ident, $val:expr) ),* ]) => {
+        impl $crate::model::Paths for $marker {
+            fn read_via(w: &mut <Self as $crate::model::MArch>::World, h: Entity<$arch>, path: u8) -> Option<(u8, u32, bool)> {
+                use $crate::model::MArch;
+                match path {
+                    0 => ecs_find!(w, h, |$($n: &$t),*| Self::un($comps { $($n: *$n),* })),
+                    1 => ecs_find_borrow!(w, h, |$($n: &$t),*| Self::un($comps { $($n: *$n),* })),
+                    2 => {
+                        let mut out = None;
+                        ecs_iter!(w, |e: &Entity<$arch>, $($n: &$t),*| {
+                            if *e == h { out = Some(Self::un($comps { $($n: *$n),* })); }
+                        });
+                        out
+                    }
+                    3 => {
+                        let mut out = None;
+                        ecs_iter_borrow!(w, |e: &Entity<$arch>, $($n: &$t),*| {
+                            if *e == h { out = Some(Self::un($comps { $($n: *$n),* })); }
+                        });
+                        out
+                    }
+                    4 => {
+                        let view = Self::arch_mut(w).view(h)?;
+                        Some(Self::un($comps { $($n: *view.$n),* }))
+                    }
+                    5 => {
+                        let view = w.view::<$arch, _>(h)?;
+                        Some(Self::un($comps { $($n: *view.component::<$t>()),* }))
+                    }
+                    6 => {
+                        let b = w.borrow::<$arch, _>(h)?;
+                        let r = Self::un($comps { $($n: *b.component::<$t>()),* });
+                        Some(r)
+                    }
+                    7 => {
+                        let a = Self::arch_mut(w);
+                        let i = a.resolve(h)?;
+                        Some(Self::un($comps { $($n: a.get_slice::<$t>()[i]),* }))
+                    }
+                    8 => {
+                        let a = Self::arch_mut(w);
+                        let i = a.resolve(h)?;
+                        let s = a.get_all_slices_mut();
+                        Some(Self::un($comps { $($n: s.$n[i]),* }))
+                    }
+                    9 => {
+                        let a = Self::arch_mut(w);
+                        let mut out = None;
+                        for (e, $($n),*) in a.iter() {
+                            if *e == h { out = Some(Self::un($comps { $($n: *$n),* })); }
+                        }
+                        out
+                    }
+                    10 => {
+                        let a = Self::arch_mut(w);
+                        let mut out = None;
+                        for (e, $($n),*) in a.iter_mut() {
+                            if *e == h { out = Some(Self::un($comps { $($n: *$n),* })); }
+                        }
+                        out
+                    }
+                    _ => {
+                        let a = Self::arch_mut(w);
+                        let i = a.resolve(h)?;
+                        let r = Self::un($comps { $($n: a.borrow_slice::<$t>()[i]),* });
+                        Some(r)
+                    }
+                }
+            }
+
+            fn write_via(w: &mut <Self as $crate::model::MArch>::World, h: Entity<$arch>, path: u8, $v: u8, $x: u32) -> bool {
+                use $crate::model::MArch;
+                match path {
+                    0 => ecs_find!(w, h, |$($n: &mut $t),*| { $( *$n = $val; )* }).is_some(),
+                    1 => ecs_find_borrow!(w, h, |$($n: &mut $t),*| { $( *$n = $val; )* }).is_some(),
+                    2 => {
+                        let mut hit = false;
+                        ecs_iter!(w, |e: &Entity<$arch>, $($n: &mut $t),*| {
+                            if *e == h { $( *$n = $val; )* hit = true; }
+                        });
+                        hit
+                    }
+                    3 => {
+                        let mut hit = false;
+                        ecs_iter_borrow!(w, |e: &Entity<$arch>, $($n: &mut $t),*| {
+                            if *e == h { $( *$n = $val; )* hit = true; }
+                        });
+                        hit
+                    }
+                    4 => match Self::arch_mut(w).view(h) {
+                        Some(view) => { $( *view.$n = $val; )* true }
+                        None => false,
+                    },
+                    5 => match w.view::<$arch, _>(h) {
+                        Some(mut view) => { $( *view.component_mut::<$t>() = $val; )* true }
+                        None => false,
+                    },
+                    6 => match w.borrow::<$arch, _>(h) {
+                        Some(b) => { $( *b.component_mut::<$t>() = $val; )* true }
+                        None => false,
+                    },
+                    7 => {
+                        let a = Self::arch_mut(w);
+                        match a.resolve(h) {
+                            Some(i) => { $( a.get_slice_mut::<$t>()[i] = $val; )* true }
+                            None => false,
+                        }
+                    }
+                    8 => {
+                        let a = Self::arch_mut(w);
+                        match a.resolve(h) {
+                            Some(i) => { let s = a.get_all_slices_mut(); $( s.$n[i] = $val; )* true }
+                            None => false,
+                        }
+                    }
+                    _ => {
+                        let a = Self::arch_mut(w);
+                        let mut hit = false;
+                        for (e, $($n),*) in a.iter_mut() {
+                            if *e == h { $( *$n = $val; )* hit = true; }
+                        }
+                        hit
+                    }
                 }
             }
         }
